@@ -305,6 +305,33 @@ def oracle_session(ctx, Packetizer, Message, suites, comp, nmsgs, maxlen, switch
     return None
 
 
+def big_session(ctx, Packetizer, Message, c, m, comp, salt):
+    rng = ctx.rng
+    out_sock, in_sock = L.SinkSock(rng), L.FragSock()
+    ps, pr = Packetizer(out_sock), Packetizer(in_sock)
+    ps._initial_kex_done = pr._initial_kex_done = True
+    case = {"suites": [[c, m]], "compression": comp, "lens": []}
+    try:
+        L.wire_up(ps, pr, c, m, comp, salt=salt)
+    except Exception as e:
+        return ("activate:" + exc_site(e), case, repr(e))
+    seq = 0
+    for l in (65535, 65536, 65537, 65538, rng.randrange(65539, 70000), 70000, 1, 32768):
+        for kind in ("random", "repetitive"):
+            payload = rng.randbytes(l) if kind == "random" else (bytes([rng.randrange(256)]) * 97 + b"abc") * (l // 100 + 1)
+            payload = payload[:l]
+            case["lens"].append(l)
+            try:
+                ps.send_message(Message(payload))
+            except Exception as e:
+                return ("send:" + exc_site(e), case, repr(e))
+            err = drain(ctx, pr, in_sock, out_sock, [(payload, seq)], case)
+            if err:
+                return err
+            seq += 1
+    return None
+
+
 def drain(ctx, pr, in_sock, out_sock, pending, case):
     rng = ctx.rng
     if case.get("banner"):
@@ -332,7 +359,7 @@ def drain(ctx, pr, in_sock, out_sock, pending, case):
         if got != payload or msg.seqno != seq:
             what = "payload" if got != payload else "seqno"
             return ("decoded-differs:" + what, dict(case, at_len=len(payload)),
-                    "sent %s… seq %d, got %s… seq %d" % (payload[:24].hex(), seq, got[:24].hex(), msg.seqno))
+                    "sent %d bytes %s… seq %d, got %d bytes %s… seq %d" % (len(payload), payload[:24].hex(), seq, len(got), got[:24].hex(), msg.seqno))
     return None
 
 
@@ -394,6 +421,17 @@ def run(ctx):
             for comp in comps:
                 jobs.append(([(c, m), ctx.rng.choice(suites)], comp, ctx.rng.randrange(3, 21),
                              ctx.rng.choice([200, 200, 2000, 70000 if i % 12 == 0 else 500]), ctx.rng.choice([0, 0, 1])))
+    # the upper end of the quantifier (payloads up to 70000 bytes, around 2^16) for every compression setting and
+    # one suite per framing mode, in both tiers
+    big_suites = [next(x for x in suites if "gcm" in x[0]), next(x for x in suites if "etm" in x[1] and "gcm" not in x[0]),
+                  next(x for x in suites if "cbc" in x[0] and "etm" not in x[1]), next(x for x in suites if "ctr" in x[0] and "etm" not in x[1])]
+    for bi, (c, m) in enumerate(big_suites):
+        for comp in comps:
+            err = big_session(ctx, Packetizer, Message, c, m, comp, salt=5000 + bi)
+            ctx.case(("real-big", c, m, comp), err is None)
+            ctx.dist("oracle:big-payloads:" + comp)
+            if err:
+                ctx.fail(err[0], err[1], err[2])
     for j, (ss, comp, nm, maxlen, sw) in enumerate(jobs):
         if ctx.thorough and nm * maxlen > 2_000_000:
             nm = max(1, 2_000_000 // maxlen)
